@@ -41,6 +41,7 @@ enum {
 	FM_LEGACYSHAPE = 16384, // SSE/FO4 file that still contains NiTriShape geometry (built as Skyrim LE, then re-versioned)
 	FM_EXPORTINFO = 32768,  // 300-character export info in the header
 	FM_TEXPATH = 65536,     // a texture path that needs cleaning in texture slot 0
+	FM_STRIPPART = 8388608, // OB/FO3/SK with FM_SKIN: the skin partition stores its faces as strips (one strip per triangle), as game files do
 	FM_SEGMENTS = 4194304,  // FO4/FO76: the shape carries 2 segments, the first with 2 sub-segments (triangle 0 in sub-segment 1, triangle 1 in segment 2)
 	FM_SKIN2 = 2097152,     // with FM_SHAPE2: "Other" is skinned to ONE bone ("Bone0"), so that the file holds skin blocks with different bone counts
 	FM_DATALESS = 1048576,  // OB/FO3/SK: a NiTriShape "NoData" without geometry data is the first shape of the file
@@ -137,6 +138,21 @@ static inline FmModel fm_build(NifFile& nif, int ver, int feat) {
 		fm_skin(nif, m.shape, "Shape", 4, (feat & FM_BONETREE) != 0);
 	else
 		nif.AddNode("Bone0", t);
+	if ((feat & FM_STRIPPART) && (feat & FM_SKIN) && (ver == FM_OB || ver == FM_FO3 || ver == FM_SK)) {
+		auto si = nif.GetHeader().GetBlock<NiSkinInstance>(m.shape->SkinInstanceRef());
+		auto sp = si ? nif.GetHeader().GetBlock(si->skinPartitionRef) : nullptr;
+		if (sp)
+			for (auto& pb : sp->partitions) {
+				pb.numStrips = (uint16_t) pb.triangles.size();
+				pb.stripLengths.assign(pb.triangles.size(), 3);
+				pb.strips.clear();
+				for (auto& t : pb.triangles)
+					pb.strips.push_back({t.p1, t.p2, t.p3});
+				pb.hasFaces = true;
+				pb.triangles.clear();
+				pb.trueTriangles.clear();
+			}
+	}
 	if ((feat & FM_BONETYPE) && (feat & FM_SKIN)) {
 		if (auto b = nif.FindBlockByName<NiNode>("Bone1")) {
 			auto [vS, v] = nifly::make_unique<BSValueNode>();
